@@ -105,6 +105,9 @@ var Importer types.Importer = harnessImporter{}
 type LoadOpts struct {
 	Tolerant bool // keep going on errors (C19 emulation)
 	NoWrite  bool // files already exist on disk with these bytes
+	// AllowUnusedImports: an edit that removes the last use of a package orphans its import
+	// whatever the quality of the suggestion (C09 calibration).
+	AllowUnusedImports bool
 }
 
 func newInfo() *types.Info {
@@ -155,9 +158,10 @@ func Load(fset *token.FileSet, dir, pkgPath string, srcs []Source, opts LoadOpts
 	}
 	p.Info = newInfo()
 	conf := types.Config{
-		Importer: Importer,
-		Sizes:    Sizes,
-		Error:    func(err error) { p.TypeErrs = append(p.TypeErrs, err) },
+		Importer:                 Importer,
+		Sizes:                    Sizes,
+		Error:                    func(err error) { p.TypeErrs = append(p.TypeErrs, err) },
+		DisableUnusedImportCheck: opts.AllowUnusedImports,
 	}
 	pkg, _ := conf.Check(pkgPath, fset, p.Files, p.Info)
 	p.Pkg = pkg
